@@ -98,7 +98,7 @@ package packageonly
 // does not allow the using package (by path or by name, over the union of all annotation lines) is reported, every such
 // type is reported (PKGO01) at its first unsuppressed reference in the file, and nothing else is reported.
 //@ func CheckPackageOnly
-//@   props C04 C07 C08 C12 C14 C17 C10
+//@   props C04 C07 C08 C12 C14 C17 C10 C13
 //@   assigns nothing
 //@   requires cfg != nil && pass.Pkg != nil && packageAnnotations != nil && (ignoreSet != nil ==> isetInv(ignoreSet))
 //@   ensures forall j int :: 0 <= j && j < len(result) ==> justifiedP(cfg, pass, packageAnnotations, ignoreSet, result[j])
